@@ -46,6 +46,12 @@ def _ids_intact(out, c, clock, pos, mats):
     return ids, intact
 
 
+def _just_below(n, t):
+    """gamma variant for time / distance splits: the threshold handed over is a millionth below th ticks / units, so a step of exactly th
+    exceeds it by a relative 1e-6 (judged by P as threshold th - 1: integer steps exceed it iff they are >= th)"""
+    return t.get("op") == "split" and t.get("kind") in ("time", "distance") and t.get("th", 0) >= 1 and (n // 11) % 2 == 1
+
+
 def execute(job):
     from evo.core import trajectory
     n, t, seed = job
@@ -86,7 +92,9 @@ def execute(job):
             o["rows"], o["intact"] = rows, intact
             return o
         c = t["c"]
-        diag = op == "split" and t.get("kind") == "distance" and (n // 7) % 2 == 1
+        below = _just_below(n, t)
+        shrink = (1.0 - 2.0 ** -20) if below else 1.0
+        diag = op == "split" and t.get("kind") == "distance" and (n // 7) % 2 == 1 and not below
         if diag:
             # the same step pattern along the diagonal of the xy plane, given as INTEGER coordinates: step lengths s * sqrt(2)
             from evo.core.trajectory import PoseTrajectory3D
@@ -118,9 +126,9 @@ def execute(job):
             tr.reduce_to_time_range(lo, hi)
         elif op == "split":
             if t["kind"] == "time":
-                parts = tr.split_time_gaps(t["th"] * clock.dt)
+                parts = tr.split_time_gaps(t["th"] * clock.dt * shrink)
             elif t["kind"] == "distance":
-                parts = tr.split_distance_gaps((t["th"] + 0.5) * math.sqrt(2.0) if diag else t["th"] * u)
+                parts = tr.split_distance_gaps((t["th"] + 0.5) * math.sqrt(2.0) if diag else t["th"] * u * shrink)
             else:
                 parts = tr.split_speed_outliers(0.5 * t["th"] * u / clock.dt)
             o["parts"] = []
@@ -185,8 +193,10 @@ def run(rep, tier, seed):
         t["id"] = "s%d" % n
         t["o"] = o
         t["_single"] = True
+        if _just_below(n, c):
+            t["th"] = c["th"] - 1
         traces.append(t)
-        m = c.get("o")
+        m = None if _just_below(n, c) else c.get("o")
         if m is not None and c["op"] == "motion" and c["a"] > 0:
             hs = c["c"]["heads"]
             rel = lambda a, b: min(abs(a - b) % 360, 360 - abs(a - b) % 360)  # noqa: E731
